@@ -31,7 +31,10 @@ class CreateAgent(ASTNode):
         return out_str
 
     def get_string(self, *args, **kwargs):
-        using_ar = [f'model={repr(self.model)}']
+        using_ar = []
+        if self.model is not None:
+            # an agent created without a model must not print `model=None` (read back as an identifier)
+            using_ar.append(f'model={repr(self.model)}')
         using_ar += [f'{k}={repr(v)}' for k, v in self.params.items()]
         using_str = ', '.join(using_ar)
 
